@@ -49,10 +49,25 @@ def spec_round_robin(ck):
     fn = ck.find(lambda: ck.db.method('LoadBalanceConnector', 'round_robin'), 'LoadBalanceConnector::round_robin')
     if fn is None:
         return
+    # which kind of cursor is it?  An ever-growing ticket counter (fetch_add, index = ticket mod n) is checked from ANY counter
+    # value; a position kept below the member count (e.g. fetch_update(|i| (i + 1) % n)) is checked from any position < n --
+    # states above that are not reachable for that design and say nothing about it.
+    probe = ck.engine()
+    probe.benign_havoc = BENIGN
+    ps = State()
+    pm = _lb(ck, probe, ps)
+    counter_design = False
+    for s in probe.call_fn(ps, fn, [Ref(pm['arc'], ()), Ref(pm['state'], ())]):
+        if any(e[0] == 'atomic.fetch_add' for e in s.trace):
+            counter_design = True
+    if probe in ck.engines:
+        ck.engines.remove(probe)        # the probe only classifies the design; its states are not obligations
     ex = ck.engine()
     ex.benign_havoc = BENIGN
     st = State()
     m = _lb(ck, ex, st)
+    if not counter_design:
+        ex.assume(st, z3.ULT(m['idx0'], m['n']))
     ex.inputs = {'member_count': m['n'], 'rr_cursor': m['idx0']}
     finals = ex.call_fn(st, fn, [Ref(m['arc'], ()), Ref(m['state'], ())])
     for s in finals:
@@ -60,8 +75,10 @@ def spec_round_robin(ck):
             continue
         idxs = [e for e in s.trace if e[0] == 'member-index']
         gets = [e for e in s.trace if e[0] == 'connectors.get']
-        fa = [e for e in s.trace if e[0] == 'atomic.fetch_add']
-        ex.prove(s, 'C17/round-robin/ticket-taken-by-one-atomic-fetch-add', len(fa) == 1 and not [e for e in s.trace if e[0] == 'atomic.store'])
+        rmw = [e for e in s.trace if e[0] == 'atomic.rmw']
+        plain = [e for e in s.trace if e[0] in ('atomic.store', 'atomic.load')]
+        # two requests must never get the same turn: the cursor is read and advanced by ONE atomic read-modify-write
+        ex.prove(s, 'C17/round-robin/ticket-taken-by-one-atomic-fetch-add', len(rmw) == 1 and not plain)
         lb2 = s.mem[m['lbcell']]
         newc = lb2.fields[m['fields'].index('idx')].fields[0].t
         q1, r1 = ex.divmod(s, newc, m['n'])
@@ -72,6 +89,34 @@ def spec_round_robin(ck):
             # ticket mod n, through the same Euclidean-division lemma the engine uses for `%` (q, r are unique)
             q_, r_ = ex.divmod(s, m['idx0'], m['n'])
             ex.prove(s, 'C17/round-robin/selected-index-is-ticket-mod-member-count', idxs[0][1] == r_)
+    ck.notes.append('round robin cursor: %s' % ('ever-growing ticket counter: any counter value' if counter_design else 'not a fetch_add counter: positions below the member count'))
+    # from the freshly loaded balancer (cursor at its Default), 2n consecutive requests: consecutive members, each exactly twice
+    for n in (1, 2, 3):
+        exh = ck.engine()
+        exh.benign_havoc = BENIGN
+        sh = State()
+        mh = _lb(ck, exh, sh)
+        exh.assume(sh, mh['n'] == BV(n, 64))
+        exh.assume(sh, mh['idx0'] == BV(0, 64))
+        exh.inputs = {'member_count': mh['n']}
+        frontier = [sh]
+        for k in range(2 * n):
+            nxt = []
+            for s in frontier:
+                s2 = s.fork()
+                s2.frames = []
+                s2.status = 'running'
+                nxt += [o for o in exh.call_fn(s2, fn, [Ref(mh['arc'], ()), Ref(mh['state'], ())]) if o.status == 'returned']
+            frontier = nxt
+        for s in frontier:
+            picks = [e[1] for e in s.trace if e[0] == 'member-index']
+            ok = z3.BoolVal(len(picks) == 2 * n)
+            if len(picks) == 2 * n:
+                ok = z3.And([picks[k] == BV(k % n, 64) for k in range(2 * n)])
+            exh.prove(s, 'C17/round-robin/from-the-start-members-take-turns-in-order', ok)
+        if not frontier:
+            ck.add('C17/round-robin/history-reachability', 'vacuous', '%d consecutive selections never all returned (n=%d)' % (2 * n, n))
+        ck.absorb(exh, 'LoadBalanceConnector::round_robin x%d (n=%d)' % (2 * n, n), None)
     ck.absorb(ex, 'LoadBalanceConnector::round_robin', finals)
     # the arithmetic residue law that turns "index = ticket mod n, consecutive tickets" into "each member exactly k times"
     ex2 = ck.engine()
